@@ -153,6 +153,67 @@ def install_flat_list(spec: Spec):
     spec.methods[('BaseEvent', 'event_results_flat_list')] = key
 
 
+def install_flat_dict(spec: Spec):
+    """event_results_flat_dict: the union, last writer wins, of the dict values of the included dict-valued results; with
+    raise_if_conflicts no key may come from two results. A dict value of type Any is an object of class dict with the heap field
+    dict_items. Key ORDER of the merged dict is not stated."""
+    from pyvc.values import parse_ty, mk_bool, STR, Ty
+    from pyvc import smt
+    M = 'bubus/models.py'
+    F = spec.functions['BaseEvent.event_results_filtered']
+    spec.field('dict_items', 'dict[str,any]')
+    spec.specfuns['truthy'] = lambda ex, x: mk_bool(ex.truth(x))
+    raises = [RaisesClause(rc.cls, when=rc.when, ensures=[], label=rc.label, tags=rc.tags,
+                           origin='call:BaseEvent.event_results_filtered/' + rc.label, delivered=rc.delivered)
+              for rc in F.raises if not rc.caller_only]
+
+    def include_pure(ex, n):
+        return spec.specfuns['holds'](ex, ex.lookup('include'), ex.eval(n.args[0]))
+
+    def key_view(ex, d):
+        k = z3.Const('kv!%d' % ex.counter('kv'), STR.sort())
+        return V(Ty('set', (STR,)), z3.Lambda([k], ex.dict_has_term(d, k)))
+
+    def merged_keys(ex, n, awaited, recv=None):
+        return key_view(ex, ex.refresh(ex.lookup('merged_results')))
+
+    def result_keys(ex, n, awaited, recv=None):
+        r = ex.eval(n.func.value)                       # event_result.result : Any
+        ex.safety('AttributeError', smt.issub(smt.tag(r.term), smt.CLASSES['dict']), 'keys_of_non_dict')
+        return key_view(ex, ex.read_field(r.term, 'dict_items'))
+
+    D = lambda j: 'loop_seq[' + j + '].result.dict_items'
+    VD = lambda j: 'last_view[list(last_view)[' + j + ']].result.dict_items'
+    DICT_INCLUDED = lambda k: "(" + k + " in " + ER + " and isinstance(" + ER + "[" + k + "].result, dict) and holds(include, " + ER + "[" + k + "]))"
+
+    def clauses(target, Dj, n, tags):
+        return [
+            ('keys_are_the_union', "forall(lambda key: (key in %s) == exists(lambda j: 0 <= j and j < %s and key in %s, 'int'), 'str')" % (target, n, Dj('j')), tags),
+            ('last_writer_wins', "forall(lambda key, j: implies(0 <= j and j < %s and key in %s and forall(lambda j2: implies(j < j2 and j2 < %s, key not in %s), 'int'), "
+                                 "%s[key] is %s[key]), 'str', 'int')" % (n, Dj('j'), n, Dj('j2'), target, Dj('j')), tags),
+            ('no_key_from_two_results_if_conflicts_forbidden', "implies(raise_if_conflicts, forall(lambda key, j1, j2: implies(0 <= j1 and j1 < j2 and j2 < %s, "
+                                                               "not (key in %s and key in %s)), 'str', 'int', 'int'))" % (n, Dj('j1'), Dj('j2')), tags),
+        ]
+
+    key = 'BaseEvent.event_results_flat_dict'
+    params = dict(WRAPPER_PARAMS)
+    params['raise_if_conflicts'] = 'bool'
+    spec.fn(key, file=M, qual=key, is_async=True, interference='results', params=params, returns='dict[str,any]',
+            requires=[('in_loop', 'loop_running()', [])],
+            any_containers=True,
+            modifies=[(c[0], c[1]) for c in F.modifies], ghost_modifies=['last_view'],
+            locals={'valid_results': 'dict[str,EventResult]', 'merged_results': 'dict[str,any]', 'overlapping_keys': 'set[str]'},
+            callsites={'self.event_results_filtered': {'post': set_view}, 'include(event_result)': {'pure': include_pure},
+                       'merged_results.keys': {'model': merged_keys}, 'event_result.result.keys': {'model': result_keys}},
+            loops={0: {'inv': clauses('merged_results', D, 'loop_i', ['C12']) + [('merged_is_a_dict', 'wf_dict(merged_results)', [])]}},
+            ensures=[('view_is_exactly_the_included_dict_results', "forall(lambda k: (k in last_view) == " + DICT_INCLUDED('k') + ", 'str')", ['C12']),
+                     VIEW_OF_LAST[1], VIEW_OF_LAST[2]] + clauses('result', VD, 'len(last_view)', ['C12']),
+            raises=raises + [RaisesClause('ValueError', label='conflicting_keys', origin='raise@', tags=['C12'],
+                                          ensures=[('only_if_forbidden_and_a_key_repeats', "raise_if_conflicts and exists(lambda key, j1, j2: 0 <= j1 and j1 < j2 and j2 < len(last_view) and "
+                                                                                          "key in " + VD('j1') + " and key in " + VD('j2') + ", 'str', 'int', 'int')", ['C12'])])])
+    spec.methods[('BaseEvent', 'event_results_flat_dict')] = key
+
+
 def install(spec: Spec):
     spec.specfuns['pos'] = sf_pos
     C = spec.functions['BaseEvent.event_results_filtered']
@@ -164,3 +225,4 @@ def install(spec: Spec):
             rc.ensures = list(rc.ensures) + [Clause.of(c) for c in RAISE_VIEW if c[0] not in have]
     install_wrappers(spec)
     install_flat_list(spec)
+    install_flat_dict(spec)
